@@ -6,14 +6,30 @@ package db
 
 // ---- the Reader interface as the query handler sees it (both readers are checked against it) -----------
 // A query name is a non-empty wire-format name; every walk returns a zone cut that is one, too.
+// Ghost trace of WHICH names the handler asks about (C01): the last name given to IsAuthoritative, the query and
+// control names given to FindAnswer, the zone cuts given to FindSOA / GetNs, and the location they were asked for.
+//@ ghostvar authQ slice
+//@ ghostvar authLoc int
+//@ ghostvar ansQ slice
+//@ ghostvar ansCtl slice
+//@ ghostvar ansType int
+//@ ghostvar ansLoc int
+//@ ghostvar soaCut slice
+//@ ghostvar soaLoc int
+//@ ghostvar nsCut slice
+//@ ghostvar nsLoc int
 //@ func Reader.IsAuthoritative
 //@ trusted
+//@ updates authQ, authLoc
+//@ ensures authQ == q && authLoc == loc
 //@ requires len(q) >= 1 && loc != nil
 //@ ensures err == nil ==> len(zoneCut) >= 1
 //@ ensures err != nil ==> !ns && !auth
 
 //@ func Reader.FindAnswer
 //@ trusted
+//@ updates ansQ, ansCtl, ansType, ansLoc
+//@ ensures ansQ == q && ansCtl == packedControlName && ansType == qtype && ansLoc == loc
 //@ requires len(q) >= 1 && len(packedControlName) >= 1 && loc != nil && a != nil
 //@ modifies a
 //@ ensures a.MsgHdr == old(a.MsgHdr) && a.Question == old(a.Question) && a.Ns == old(a.Ns) && a.Extra == old(a.Extra) && a.Compress == old(a.Compress)
@@ -31,6 +47,8 @@ package db
 
 //@ func FindSOA
 //@ trusted
+//@ updates soaCut, soaLoc
+//@ ensures soaCut == zoneCut && soaLoc == loc
 //@ requires a != nil && len(zoneCut) >= 1
 //@ modifies a
 //@ ensures a.MsgHdr == old(a.MsgHdr) && a.Question == old(a.Question) && a.Answer == old(a.Answer) && a.Extra == old(a.Extra) && a.Compress == old(a.Compress)
@@ -41,6 +59,8 @@ package db
 
 //@ func GetNs
 //@ trusted
+//@ updates nsCut, nsLoc
+//@ ensures nsCut == q && nsLoc == loc
 //@ requires len(q) >= 1
 
 //@ func AdditionalSectionForRecords
@@ -75,15 +95,30 @@ package db
 //@ func DBI.ForEach
 //@ trusted
 //@ requires closes[recv] == 0
+// ghost trace of the two location look-ups (C03/C10): which name and map type FindMap was asked about and what it
+// returned; how often the subnet table was consulted, for which map, and what it returned
+//@ ghostvar fmDomain slice
+//@ ghostvar fmType slice
+//@ ghostvar fmResult slice
+//@ ghostvar mapLookups int
+//@ ghostvar glbmNet int
+//@ ghostvar glbmMap slice
+//@ ghostvar glbmLoc slice
+//@ ghostvar glbmMask int
 //@ func DBI.FindMap
 //@ trusted
 //@ requires closes[recv] == 0
+//@ updates fmDomain, fmType, fmResult
+//@ ensures fmDomain == domain && fmType == mtype && fmResult == result0
+//@ ensures err != nil ==> result0 == nil
 // GetLocationByMap (C03/C10): the location of the longest matching subnet of the client's own family and
 // its prefix length in 128-bit terms: never above 128, and at least 96 for an IPv4 network; a returned
 // location id is two bytes and not the null location.
 //@ func DBI.GetLocationByMap
 //@ trusted
 //@ requires closes[recv] == 0 && ipnet != nil
+//@ updates mapLookups, glbmNet, glbmMap, glbmLoc, glbmMask
+//@ ensures mapLookups == old(mapLookups) + 1 && glbmNet == ipnet && glbmMap == mapID && glbmLoc == result0 && glbmMask == result1
 //@ ensures err == nil && result0 != nil ==> result1 <= 128 && (len(ipnet.Mask) == 4 ==> result1 >= 96)
 //@ ensures err == nil && result0 != nil ==> len(result0) == 2 && !(result0[0] == 0 && result0[1] == 0)
 //@ func DBI.ClosestKeyFinder
@@ -199,8 +234,39 @@ package db
 // ---- C10 / C03: ECS location lookup -----------------------------------------------------------------------
 // findLocation as used by EcsLocation/ResolverLocation: a fresh Location whose mask, when a location was
 // found, is a prefix length of the 128-bit form that is >= 96 for an IPv4 network.
+// FindLocation (C10/C03): a client-subnet option, when the query carries one, is ALWAYS looked up in the client-subnet
+// maps (type '8') -- whatever its source prefix length -- and the resolver maps (type 'M') are consulted after it only
+// when that gave no location; without the option only the resolver maps are consulted.
+//@ func DataReader.FindLocation
+//@ updates fmDomain, fmType, fmResult, mapLookups, glbmNet, glbmMap, glbmLoc, glbmMask
+//@ flag skip frame
+//@ requires r.db != nil && r.db.dbi != nil && closes[r.db.dbi] == 0 && m != nil
+// wire validity of the option (established by the message unpacker): an IPv4 option has a source prefix of at most 32
+//@ requires[wire] uf.ecsof(m) != nil ==> (asptr(uf.ecsof(m), "dns.EDNS0_SUBNET").Family == 1 ==> asptr(uf.ecsof(m), "dns.EDNS0_SUBNET").SourceNetmask <= 32)
+//@ ensures[ecs-asked] err == nil && ecs != nil ==> (mapLookups == old(mapLookups) + 1 && len(fmType) == 2 && fmType[1] == 56) || mapLookups == old(mapLookups) + 2
+//@ ensures[resolver-only] err == nil && ecs == nil ==> mapLookups == old(mapLookups) + 1 && len(fmType) == 2 && fmType[1] == 77
+
+//@ func DataReader.ResolverLocation
+//@ updates fmDomain, fmType, fmResult, mapLookups, glbmNet, glbmMap, glbmLoc, glbmMask
+//@ flag skip frame
+//@ requires r.db != nil && r.db.dbi != nil && closes[r.db.dbi] == 0
+//@ ensures[resolver-map] err == nil ==> mapLookups == old(mapLookups) + 1 && fmDomain == q && len(fmType) == 2 && fmType[0] == 0 && fmType[1] == 77
+//@ ensures[err] err != nil ==> result0 == nil
+
+// findLocation (C03): the map of the name is looked up for exactly this name and map type; the subnet table is then
+// ALWAYS consulted -- for that map, or for the default map {0,0} when the name has none -- with the client's network,
+// and the result carries exactly the location and prefix length the table returned (none: the null location).
 //@ func DataReader.findLocation
+//@ updates fmDomain, fmType, fmResult, mapLookups, glbmNet, glbmMap, glbmLoc, glbmMask
 //@ requires r.db != nil && r.db.dbi != nil && closes[r.db.dbi] == 0 && ipnet != nil
+//@ ensures[fm-args] fmDomain == q && fmType == mtype
+//@ after copy#0 assert[mapid-copied] len(mapID) >= 2 ==> location.MapID[0] == mapID[0] && location.MapID[1] == mapID[1]
+//@ after copy#1 assert[loc-copied] len(locID) >= 2 ==> location.LocID[0] == locID[0] && location.LocID[1] == locID[1]
+//@ ensures[asked] err == nil ==> mapLookups == old(mapLookups) + 1 && glbmNet == ipnet
+//@ ensures[mapid-none] err == nil && fmResult == nil ==> result0.MapID[0] == 0 && result0.MapID[1] == 0
+//@ ensures[mapid] err == nil && len(fmResult) >= 2 ==> result0.MapID[0] == fmResult[0] && result0.MapID[1] == fmResult[1]
+//@ ensures[loc] err == nil && len(glbmLoc) >= 2 ==> result0.LocID[0] == glbmLoc[0] && result0.LocID[1] == glbmLoc[1] && result0.Mask == glbmMask
+//@ ensures[noloc] err == nil && glbmLoc == nil ==> result0.LocID[0] == 0 && result0.LocID[1] == 0 && result0.Mask == 0
 //@ ensures[err] err != nil ==> result0 == nil
 //@ ensures[fresh] err == nil ==> result0 != nil && fresh(result0) && result0.Mask <= 128
 //@ ensures[v4] err == nil && len(ipnet.Mask) == 4 && !(result0.LocID[0] == 0 && result0.LocID[1] == 0) ==> result0.Mask >= 96
@@ -215,6 +281,8 @@ package db
 //@ requires[wire] ecs.Family == 1 ==> ecs.SourceNetmask <= 32
 //@ requires ecs != nil && r.db != nil && r.db.dbi != nil && closes[r.db.dbi] == 0
 //@ modifies ecs
+//@ updates fmDomain, fmType, fmResult, mapLookups, glbmNet, glbmMap, glbmLoc, glbmMask
+//@ ensures[ecs-map] err == nil ==> mapLookups == old(mapLookups) + 1 && fmDomain == q && len(fmType) == 2 && fmType[0] == 0 && fmType[1] == 56
 //@ ensures[frame] ecs.Family == old(ecs.Family) && ecs.SourceNetmask == old(ecs.SourceNetmask) && ecs.Address == old(ecs.Address) && ecs.Code == old(ecs.Code)
 //@ ensures[nomap] err == nil && result0 == nil ==> ecs.SourceScope == old(ecs.SourceScope) || ecs.SourceScope == ite(ecs.Family == 2, 48, 24)
 //@ ensures[match4] err == nil && result0 != nil && ecs.Family == 1 ==> ecs.SourceScope == (result0.Mask + 160) % 256
@@ -230,6 +298,12 @@ package db
 //@ pure
 //@ extern math/rand Rand.Uint32
 //@ pure
+// WeightedAnswer (C11/C12): an answer is "weighted" -- the outcome of a draw, not to be replayed from the cache as
+// a fixed answer -- exactly when some family had more than one candidate.
+//@ func Wrs.WeightedAnswer
+//@ pure
+//@ ensures result == (w.V4Count > 1 || w.V6Count > 1)
+
 //@ func Wrs.Add
 //@ requires w.MaxAnswers >= 1 && len(w.V4) <= w.MaxAnswers && len(w.V6) <= w.MaxAnswers
 //@ requires 0 <= rec.Offset && rec.Offset <= len(data)
@@ -439,3 +513,41 @@ package db
 //@ func FindECS
 //@ trusted
 //@ pure
+//@ ensures result == nil || result == uf.ecsof(m)
+
+// ---- C05: what a backend reload does ----------------------------------------------------------------------------
+// (ghost trace of the files opened and of catch-ups with the primary: opens, openedPath, catchups -- package rdb)
+//@ extern github.com/repustate/go-cdb Open
+//@ updates opens, openedPath
+//@ ensures opens == old(opens) + 1 && openedPath == name
+//@ ensures err == nil ==> result0 != nil && fresh(result0)
+//@ ensures err != nil ==> result0 == nil
+
+// A CDB file is immutable once mapped: the only way to serve a replaced file is to map the named file again. A
+// successful CDB reload therefore ALWAYS opens the given path and returns that new, distinct backend.
+//@ func openCDB
+//@ updates opens, openedPath
+//@ ensures[opened] opens == old(opens) + 1 && openedPath == name
+//@ ensures[fresh] err == nil ==> result0 != nil && fresh(result0)
+//@ ensures[fail] err != nil ==> result0 == nil
+//@ func cdbdriver.Reload
+//@ updates opens, openedPath
+//@ flag skip frame
+//@ ensures[reopened] opens == old(opens) + 1 && openedPath == path
+//@ ensures[fresh] err == nil ==> result0 != nil && fresh(result0) && result0 != c
+//@ ensures[fail] err != nil ==> result0 == nil
+
+// RocksDB: the same path means catching up with the primary in place (the same backend object is returned, after
+// exactly one catch-up); another path means opening that database as a new, distinct backend.
+//@ func openRDB
+//@ updates opens, openedPath
+//@ ensures[opened] opens == old(opens) + 1 && openedPath == path
+//@ ensures[fresh] err == nil ==> result0 != nil && fresh(result0)
+//@ ensures[fail] err != nil ==> result0 == nil
+//@ func rdbdriver.Reload
+//@ updates opens, openedPath, catchups
+//@ flag skip frame
+//@ requires r.db != nil
+//@ ensures[catchup] path == r.path ==> catchups == old(catchups) + 1 && opens == old(opens) && (err == nil ==> result0 == r)
+//@ ensures[switch] path != r.path ==> opens == old(opens) + 1 && openedPath == path && catchups == old(catchups) && (err == nil ==> result0 != nil && fresh(result0) && result0 != r)
+//@ ensures[fail] err != nil ==> result0 == nil
